@@ -13,6 +13,7 @@ package main
 //     operation must produce when it succeeds; an error must leave resource and value untouched.
 
 import (
+	apb "github.com/google/fhir/go/proto/google/fhir/proto/annotations_go_proto"
 	"regexp"
 	"sync"
 	"errors"
@@ -418,6 +419,11 @@ type patchOp struct {
 	vdesc string
 	index int
 	extURL string // the last step is written extension('<url>'): keep the extensions with that url
+	// the path ends in .where(<whereChild> = '<whereVal>') (or != when whereNeg): keep the elements whose child has
+	// (has not) that JSON text
+	whereChild string
+	whereVal   string
+	whereNeg   bool
 }
 
 func runC18(c *Ctx) {
@@ -453,8 +459,13 @@ func runC18(c *Ctx) {
 		  "telecom":[{"value":"111","rank":1,"_rank":{"id":"rank-1","extension":[{"url":"http://example.org/r","valueCode":"a"}]}},{"value":"222","rank":2,"_rank":{"id":"rank-2"}},{"value":"333","rank":3},{"value":"444"}],
 		  "name":[{"extension":[{"url":"http://example.org/n","valueString":"n0"}],"given":["Ada","Betty","Cleo","Dora"],"family":"F"},{"extension":[{"url":"http://example.org/n","valueString":"n1"},{"url":"http://example.org/m","valueString":"m1"}],"given":["Eve"]},{"extension":[{"url":"http://example.org/o","valueString":"o2"}],"given":["Fay","Gil","Hal"]}],
 		  "address":[{"extension":[{"url":"http://example.org/a","valueString":"a0"}],"city":"X"},{"extension":[{"url":"http://example.org/b","valueString":"b1"}],"city":"Y"},{"city":"Z","line":["l1","l2"]}],"gender":"male","_gender":{"id":"g","extension":[{"url":"http://example.org/g","valueBoolean":true}]}}`},
+		{"Encounter", `{"resourceType":"Encounter","id":"h4","status":"finished","class":{"code":"AMB"},"statusHistory":[{"status":"planned","period":{"start":"2020-01-01"}},{"status":"entered-in-error","period":{"start":"2020-01-02"}},{"status":"in-progress","period":{"start":"2020-01-03"}}],
+		  "participant":[{"individual":{"reference":"Practitioner/1/_history/2"}},{"individual":{"reference":"Practitioner/1"}},{"individual":{"reference":"RelatedPerson/r"}}],"location":[{"location":{"reference":"Location/l"},"status":"completed"},{"location":{"reference":"Location/m"},"status":"active"}]}`},
+		{"Observation", `{"resourceType":"Observation","id":"h5","status":"final","code":{"text":"c"},"performer":[{"reference":"Practitioner/1/_history/2"},{"reference":"Practitioner/1"},{"reference":"Organization/2"},{"reference":"#contained"}],
+		  "category":[{"text":"a"},{"text":"b"}],"component":[{"code":{"text":"x"},"valueString":"v1"},{"code":{"text":"y"},"valueString":"v2"}]}`},
+		{"OperationOutcome", `{"resourceType":"OperationOutcome","id":"h6","issue":[{"severity":"error","code":"not-found","diagnostics":"d1"},{"severity":"warning","code":"invalid","diagnostics":"d2"},{"severity":"error","code":"multiple-matches"}]}`},
 		{"ImagingStudy", `{"resourceType":"ImagingStudy","id":"h2","status":"available","subject":{"reference":"Patient/h1"},"numberOfSeries":4,"_numberOfSeries":{"id":"nos","extension":[{"url":"http://example.org/n","valueInteger":9}]},
-		  "numberOfInstances":0,"_numberOfInstances":{"extension":[{"url":"http://example.org/i","valueString":"z"}]},"series":[{"uid":"1.2","modality":{"code":"CT"},"number":1,"_number":{"id":"n1"}},{"uid":"1.3","modality":{"code":"MR"},"number":2},{"uid":"1.4","modality":{"code":"US"}}]}`},
+		  "numberOfInstances":7,"_numberOfInstances":{"extension":[{"url":"http://example.org/i","valueString":"z"}]},"series":[{"uid":"1.2","modality":{"code":"CT"},"number":1,"_number":{"id":"n1"}},{"uid":"1.3","modality":{"code":"MR"},"number":2},{"uid":"1.4","modality":{"code":"US"}}]}`},
 	} {
 		res := mustResource(hm.js)
 		g := &ResGen{r: c.rng, maxDepth: 2, density: 50}
@@ -462,6 +473,23 @@ func runC18(c *Ctx) {
 		for rep := 0; rep < 3; rep++ {
 			for _, op := range c18Ops(c, g, hm.tn, res) {
 				runPatchOp(c, res, op)
+			}
+		}
+		if !proto.Equal(res, mustResource(hm.js)) {
+			c.meta.Notes = append(c.meta.Notes, "HARNESS: the shared hand-made "+hm.tn+" was modified by an earlier operation")
+			res = mustResource(hm.js)
+		}
+		// explicit where(child = 'text') / where(child != 'text') paths over the codes, strings and references of the
+		// hand-made resources (present, absent, matching one item, matching several)
+		for _, wc := range handWhere[hm.tn] {
+			steps := []jstep{{wc.parent, -1}}
+			for _, neg := range []bool{false, true} {
+				opr := " = "
+				if neg {
+					opr = " != "
+				}
+				path := hm.tn + "." + wc.parent + ".where(" + fpName(wc.child) + opr + "'" + wc.text + "')"
+				runPatchOp(c, res, patchOp{kind: "delete", path: path, steps: steps, whereChild: wc.child, whereVal: wc.text, whereNeg: neg})
 			}
 		}
 		if hm.tn == "Patient" {
@@ -569,6 +597,28 @@ func c18Ops(c *Ctx, g *ResGen, tn string, res fhir.Resource) []patchOp {
 				ep := pp + ".extension('" + u + "')"
 				ops = append(ops, patchOp{kind: "delete", path: ep, steps: append([]jstep{}, steps...), extURL: u})
 				ops = append(ops, patchOp{kind: "replace", path: ep, steps: append([]jstep{}, steps...), extURL: u, value: &dtpb.Extension{Url: fhir.URI("http://new")}, vdesc: "right type (Extension)"})
+			}
+		}
+		// a real criterion: the elements whose code / string / reference child has a given text (taken from one of them)
+		if len(nodes) >= 1 && c.rng.Intn(2) == 0 {
+			pick := nodes[c.rng.Intn(len(nodes))]
+			if child, text, ok := someTextChild(c, pick.val); ok && !strings.ContainsAny(text, "'\\") {
+				for _, neg := range []bool{false, true} {
+					opr := " = "
+					if neg {
+						opr = " != "
+					}
+					wp := pathString(tn, steps) + ".where(" + fpName(child) + opr + "'" + text + "')"
+					base := patchOp{path: wp, steps: append([]jstep{}, steps...), whereChild: child, whereVal: text, whereNeg: neg}
+					d := base
+					d.kind = "delete"
+					ops = append(ops, d)
+					if vs := c18Values(c, g, nodes[0].fd.Message()); len(vs) > 0 {
+						r := base
+						r.kind, r.value, r.vdesc = "replace", vs[0].v, vs[0].d
+						ops = append(ops, r)
+					}
+				}
 			}
 		}
 		path := pathString(tn, sel) + suffix
@@ -715,7 +765,10 @@ func c18Values(c *Ctx, g *ResGen, dest protoreflect.MessageDescriptor) []namedVa
 	return out
 }
 
-func runPatchOp(c *Ctx, orig fhir.Resource, op patchOp) {
+func runPatchOp(c *Ctx, shared fhir.Resource, op patchOp) {
+	// a private copy of the resource for this operation: the inverse-pair checks put elements of `orig` back into the
+	// patched copy, so a later step could otherwise reach into the caller's resource through them
+	orig := proto.Clone(shared).(fhir.Resource)
 	res := proto.Clone(orig).(fhir.Resource)
 	var value fhir.Base
 	if op.value != nil {
@@ -731,6 +784,9 @@ func runPatchOp(c *Ctx, orig fhir.Resource, op patchOp) {
 		in += " value=" + op.vdesc
 	}
 	c.Count("op:" + op.kind)
+	if op.whereChild != "" {
+		c.Count("op-where-criterion:" + op.kind)
+	}
 	pe, err := patch.Compile(op.path)
 	if err != nil {
 		c.Count("op:path-does-not-compile")
@@ -973,6 +1029,16 @@ func expectedEdit(exp fhir.Resource, op patchOp, value fhir.Base, orig fhir.Reso
 		}
 		nodes = keep
 	}
+	if op.whereChild != "" {
+		var keep []pnode
+		for _, n := range nodes {
+			text, has := textOfChild(n.val, op.whereChild)
+			if has && (text == op.whereVal) != op.whereNeg {
+				keep = append(keep, n)
+			}
+		}
+		nodes = keep
+	}
 	switch op.kind {
 	case "delete":
 		if len(nodes) == 0 {
@@ -1199,4 +1265,86 @@ func indexedAccepted(orig fhir.Resource, op patchOp, value fhir.Base) string {
 	budget := 400
 	rec(0, nil, &budget)
 	return found
+}
+
+// textOfChild: the JSON text of the single-valued primitive child `name` of m (a string-valued primitive, an enumerated
+// code by its FHIR code, the `reference` of a Reference by its rendering) — read off the protos, not through the evaluator.
+func textOfChild(m proto.Message, name string) (string, bool) {
+	if ref, ok := m.(*dtpb.Reference); ok && name == "reference" {
+		return expectedRefString(ref)
+	}
+	r := m.ProtoReflect()
+	fds := r.Descriptor().Fields()
+	for i := 0; i < fds.Len(); i++ {
+		fd := fds.Get(i)
+		if fd.JSONName() != name || fd.Kind() != protoreflect.MessageKind || fd.IsList() || fd.ContainingOneof() != nil || !r.Has(fd) {
+			continue
+		}
+		return primitiveText(r.Get(fd).Message())
+	}
+	return "", false
+}
+
+func primitiveText(cm protoreflect.Message) (string, bool) {
+	vf := cm.Descriptor().Fields().ByName("value")
+	if vf == nil {
+		return "", false
+	}
+	switch vf.Kind() {
+	case protoreflect.StringKind:
+		switch cm.Descriptor().Name() {
+		case "Decimal", "Xhtml":
+			return "", false
+		}
+		return cm.Get(vf).String(), true
+	case protoreflect.EnumKind:
+		ev := vf.Enum().Values().ByNumber(cm.Get(vf).Enum())
+		if ev == nil || ev.Number() == 0 {
+			return "", false
+		}
+		if orig, _ := proto.GetExtension(ev.Options(), apb.E_FhirOriginalCode).(string); orig != "" {
+			return orig, true
+		}
+		return strings.ReplaceAll(strings.ToLower(string(ev.Name())), "_", "-"), true
+	}
+	return "", false
+}
+
+// someTextChild picks a child of m that has such a text.
+func someTextChild(c *Ctx, m proto.Message) (string, string, bool) {
+	type cand struct{ name, text string }
+	var cs []cand
+	if ref, ok := m.(*dtpb.Reference); ok {
+		if t, ok := expectedRefString(ref); ok && t != "" {
+			cs = append(cs, cand{"reference", t})
+		}
+	}
+	r := m.ProtoReflect()
+	fds := r.Descriptor().Fields()
+	for i := 0; i < fds.Len(); i++ {
+		fd := fds.Get(i)
+		if fd.Kind() != protoreflect.MessageKind || fd.IsList() || fd.ContainingOneof() != nil || !r.Has(fd) || fd.JSONName() == "id" {
+			continue
+		}
+		if t, ok := primitiveText(r.Get(fd).Message()); ok && t != "" {
+			cs = append(cs, cand{fd.JSONName(), t})
+		}
+	}
+	if len(cs) == 0 {
+		return "", "", false
+	}
+	k := cs[c.rng.Intn(len(cs))]
+	return k.name, k.text, true
+}
+
+type whereCase struct{ parent, child, text string }
+
+var handWhere = map[string][]whereCase{
+	"Encounter": {{"statusHistory", "status", "entered-in-error"}, {"statusHistory", "status", "planned"}, {"statusHistory", "status", "entered-in_error"}, {"statusHistory", "status", "cancelled"},
+		{"location", "status", "completed"}, {"location", "status", "active"}},
+	"Observation": {{"performer", "reference", "Practitioner/1/_history/2"}, {"performer", "reference", "Practitioner/1"}, {"performer", "reference", "Organization/2"}, {"performer", "reference", "#contained"},
+		{"performer", "reference", "Practitioner/2"}, {"category", "text", "a"}, {"category", "text", "z"}},
+	"OperationOutcome": {{"issue", "code", "not-found"}, {"issue", "code", "invalid"}, {"issue", "code", "multiple-matches"}, {"issue", "code", "multiple-matches_"}, {"issue", "severity", "warning"}, {"issue", "severity", "error"},
+		{"issue", "diagnostics", "d1"}},
+	"Patient": {{"telecom", "value", "222"}, {"telecom", "value", "999"}, {"address", "city", "Y"}},
 }
